@@ -587,8 +587,31 @@ func controlPayloadBounded(p *Program, fn *ssa.Function, v ssa.Value) (bool, str
 					return true, "strconv.Itoa of a ≤32-bit integer (≤ 11 bytes)"
 				}
 				return false, "strconv.Itoa of an unbounded integer"
-			case "CloseError.bytes":
+			case "CloseError.bytes", "CloseError.bytesErr":
 				return true, "CloseError.bytes() (reason ≤ maxCloseReason enforced by bytesErr, see C02.close)"
+			}
+			// a helper outside the reference tree that hands on the result of the marshalling functions: every []byte it
+			// returns is bounded the same way
+			if callee != nil && p.isLib(callee) && !knownFuncs[p.rawName(callee)] && len(callee.Blocks) > 0 {
+				all, n := true, 0
+				for _, b := range callee.Blocks {
+					for _, in := range b.Instrs {
+						ret, ok := in.(*ssa.Return)
+						if !ok || len(ret.Results) == 0 {
+							continue
+						}
+						n++
+						if c, isC := ret.Results[0].(*ssa.Const); isC && c.Value == nil {
+							continue
+						}
+						if ok2, _ := controlPayloadBounded(p, callee, ret.Results[0]); !ok2 {
+							all = false
+						}
+					}
+				}
+				if all && n > 0 {
+					return true, "helper " + name + " returns bounded payloads only"
+				}
 			}
 			return false, "result of " + name
 		case *ssa.Extract:
@@ -647,7 +670,36 @@ func c02frag(p *Program, r *Report, rule string) {
 		switch fname {
 		case "msgWriter.reset":
 			// from the typ parameter
-			ok = valueDerives(fa.Store.Val, func(v ssa.Value) bool { pr, isP := v.(*ssa.Parameter); return isP && paramName(pr) == "typ" }, 3)
+			ok = valueDerives(fa.Store.Val, func(v ssa.Value) bool {
+				pr, isP := v.(*ssa.Parameter)
+				if !isP {
+					return false
+				}
+				if paramName(pr) == "typ" {
+					return true
+				}
+				// the conversion opcode(typ) done by the caller: an opcode parameter whose every call site converts a MessageType
+				if strings.HasSuffix(typeString(pr.Type()), "opcode") {
+					idx := -1
+					for k, q := range pr.Parent().Params {
+						if q == pr {
+							idx = k
+						}
+					}
+					sites := p.CallersOf(pr.Parent())
+					good := idx >= 0 && len(sites) > 0
+					for _, cs := range sites {
+						cv, isConv := cs.Instr.Common().Args[idx].(*ssa.Convert)
+						if !isConv || !strings.HasSuffix(typeString(cv.X.Type()), "MessageType") {
+							if ct, isCT := cs.Instr.Common().Args[idx].(*ssa.ChangeType); !isCT || !strings.HasSuffix(typeString(ct.X.Type()), "MessageType") {
+								good = false
+							}
+						}
+					}
+					return good
+				}
+				return false
+			}, 3)
 		case "msgWriter.write":
 			c, isC := fa.Store.Val.(*ssa.Const)
 			ok = isC && c.Value != nil && c.Value.ExactString() == "0"
@@ -889,7 +941,7 @@ func c02close(p *Program, r *Report, rule string) {
 			Atoms: []Atom{intAtom("param:code", []int64{1000, 1005, 1006, 3000}), boolAtom("bytes-ok")},
 			Decide: func(v Valuation) func(string, AV) (bool, bool) {
 				return func(key string, cond AV) (bool, bool) {
-					if strings.HasPrefix(key, "(call:CloseError.bytes@") {
+					if strings.HasPrefix(key, "(call:CloseError.bytes@") || strings.HasPrefix(key, "(call:CloseError.bytesErr@") {
 						return v.Bool("bytes-ok"), true
 					}
 					// the payload bytes() returns is at most 2+123 bytes (C02.close.bytesErr): a re-check of that bound never fires
@@ -917,7 +969,10 @@ func c02close(p *Program, r *Report, rule string) {
 				if c, ok := pl.(*Const); ok && c.IsNil {
 					return "SENT-EMPTY"
 				}
-				if len(by) == 1 && keyIs(pl, "call:CloseError.bytes@@#0") {
+				if len(by) == 0 {
+					by = pa.Calls("CloseError.bytesErr") // bytes() inlined, or replaced by a helper that calls bytesErr itself
+				}
+				if len(by) == 1 && (keyIs(pl, "call:CloseError.bytes@@#0") || keyIs(pl, "call:CloseError.bytesErr@@#0")) {
 					// the CloseError marshalled carries the call's code and reason
 					if sv, ok := by[0].Args[0].(*StructV); ok {
 						if c, ok := avInt(sv.Fields[0]); ok && c == v.Int("param:code") && keyIs(sv.Fields[1], "param:reason") {
